@@ -152,6 +152,8 @@ def gen_reference(rng, K, F, T, kind):
             r = base * (1.0 + np.arange(K))[:, None, None]
         elif kind == 'signed':
             r = rng.normal(size=(K, F, T))
+        elif kind == 'near':            # nearly uniform posteriors (silent bins): rows differ in the 9th digit only - still distinct
+            r = 1.0 / K + 1e-9 * rng.normal(size=(K, F, T))
         else:
             raise ValueError(kind)
         ok = True
@@ -186,6 +188,8 @@ def rows_distinct(r, margin=1e-6):
 
 
 def in_domain(ref, metric):
+    if metric == 'euclidean':
+        return rows_distinct(ref, 1e-12)       # distances of differences: the matching row is at distance exactly 0
     return norm_rows_distinct(ref) if metric == 'cos' else rows_distinct(ref)
 
 
@@ -375,6 +379,10 @@ def cases(rng, tier):
     out += exhaustive_field_cases(rng, tier)
     for i in range(45 if q else 450):
         c = oracle_case(rng, tier, i)
+        if c is not None:
+            out.append(c)
+    for i in range(4 if q else 24):
+        c = oracle_case(rng, tier, i, K=2 + i % 3, kind='near', metric='euclidean', algo=['greedy', 'optimal'][i % 2])
         if c is not None:
             out.append(c)
     for i in range(15 if q else 150):
